@@ -347,6 +347,34 @@ func (e *Engine) dynamicCall(st *State, fr *Frame, site ssa.Instruction, c *ssa.
 		st.escape(a)
 	}
 	st.escape(fv)
+	specVars := map[string]specVal{}
+	if spec != nil && (len(spec.Requires) > 0 || len(spec.Ensures) > 0) {
+		var ats []types.Type
+		if c.IsInvoke() {
+			ats = append(ats, c.Value.Type())
+		}
+		for _, a := range c.Args {
+			ats = append(ats, a.Type())
+		}
+		for i, a := range args {
+			if i < len(ats) {
+				specVars[fmt.Sprintf("arg%d", i)] = specVal{a, ats[i]}
+			}
+		}
+		// what the callback may rely on
+		for _, cl := range spec.Requires {
+			cnd := e.evalClause(st, fr, cl, specVars)
+			e.Assert(st, fr, "pre("+name+")", cl.Label+"@"+e.siteOf(fr, site), cnd)
+			st.Assume(cnd)
+		}
+	}
+	var preserved []specVal
+	if spec != nil {
+		for _, cl := range spec.Preserves {
+			env := &SpecEnv{e: e, st: st, fr: fr, vars: map[string]specVal{}, oldHeap: fr.oldHeap, oldNext: fr.oldNext, pkg: pkgPathOf(fr.fn)}
+			preserved = append(preserved, env.eval(cl.E))
+		}
+	}
 	if spec != nil && spec.Pure {
 		e.assumed["callback/interface call "+name+" in "+displayKey(fr.fn)+": assumed not to modify the verified state (fnspec pure)"] = true
 	} else {
@@ -354,6 +382,26 @@ func (e *Engine) dynamicCall(st *State, fr *Frame, site ssa.Instruction, c *ssa.
 		e.havocAllHeap(st, "dynamic call "+name)
 	}
 	res := e.freshResults(st, c.Signature(), name)
+	if spec != nil {
+		for i, cl := range spec.Preserves {
+			env := &SpecEnv{e: e, st: st, fr: fr, vars: map[string]specVal{}, oldHeap: fr.oldHeap, oldNext: fr.oldNext, pkg: pkgPathOf(fr.fn)}
+			e.assumed["callback/interface call "+name+" in "+displayKey(fr.fn)+": assumed to preserve "+cl.Src] = true
+			st.Assume(env.equal(preserved[i], env.eval(cl.E)))
+		}
+	}
+	if spec != nil && len(spec.Ensures) > 0 {
+		// what the callback is assumed to guarantee (listed as an assumption)
+		sig := c.Signature()
+		for i, r := range res {
+			if i < sig.Results().Len() {
+				specVars[fmt.Sprintf("res%d", i)] = specVal{r, sig.Results().At(i).Type()}
+			}
+		}
+		for _, cl := range spec.Ensures {
+			e.assumed["callback/interface call "+name+" in "+displayKey(fr.fn)+": assumed to ensure "+cl.Src] = true
+			st.Assume(e.evalClause(st, fr, cl, specVars))
+		}
+	}
 	k(st, res)
 }
 
